@@ -34,8 +34,10 @@ import numpy as np
 from . import findings as findings_mod
 
 VERIF = os.path.dirname(os.path.dirname(os.path.abspath(__file__)))
-EVIDENCE_DIR = os.path.join(VERIF, "evidence")
-REPLAY_DIR = os.path.join(VERIF, "replays")
+_ALT = os.environ.get("VERIF_REPO") not in (None, "", "/repo")
+# runs against a scratch copy of the library (mutation campaign) must not overwrite the evidence of the real tree
+EVIDENCE_DIR = os.path.join(VERIF, ".scratch", "evidence") if _ALT else os.path.join(VERIF, "evidence")
+REPLAY_DIR = os.path.join(VERIF, ".scratch", "replays") if _ALT else os.path.join(VERIF, "replays")
 SCHEMA = "/root/.vp/EVIDENCE.schema.json"
 
 MAX_VIOL_PER_GROUP_PER_BLOCK = 3
